@@ -396,12 +396,17 @@ def check_unit_pairing(ctx) -> None:
     repo = ctx.repo
     gen = repo.method('GeophiresXSchemaGenerator', 'generate_json_schema')
     pub = None
-    for st in ast.walk(gen.node):
-        if isinstance(st, ast.Assign) and norm(st.targets[0]) == 'units_val':
-            keys = {c.slice.value for c in ast.walk(st.value) if isinstance(c, ast.Subscript) and isinstance(c.slice, ast.Constant)
-                    and isinstance(c.slice.value, str)}
-            if len(keys) == 1:
-                pub = keys.pop()
+    # what is stored under the key 'units' of a schema entry, read through named intermediates
+    from gxstat.inline import enclosing_stmt, inline_sequential
+    for dct in ast.walk(gen.node):
+        if isinstance(dct, ast.Dict):
+            for k, v in zip(dct.keys, dct.values):
+                if isinstance(k, ast.Constant) and k.value == 'units':
+                    ve = inline_sequential(v, enclosing_stmt(dct), cross_loops=True)
+                    keys = {c.slice.value for c in ast.walk(ve) if isinstance(c, ast.Subscript) and isinstance(c.slice, ast.Constant)
+                            and isinstance(c.slice.value, str)}
+                    if len(keys) == 1 and pub is None:
+                        pub = keys.pop()
     ctx.require(pub is not None, 'generate_json_schema: the attribute published as `units` was not found')
     cu = repo.function('geophires_x/Parameter.py', 'ConvertUnits')
     conv = [c for c in ast.walk(cu.node) if isinstance(c, ast.Call) and isinstance(c.func, ast.Attribute) and c.func.attr in ('ito', 'to')
